@@ -19,6 +19,13 @@ var (
 
 // bindProgram builds one point of the binding matrix. It returns nil for inexpressible points.
 func bindProgram(ifk, impl, conc, how, nI, nC int, noBinding bool, depth, order int) *ir.Program {
+	return bindProgramX(ifk, impl, conc, how, nI, nC, noBinding, depth, order, 0, 0)
+}
+
+// second: 0 none; 1 a second, valid binding (another interface bound to the same concrete type) listed after the first;
+// 2 a second binding whose concrete type is not provided anywhere, listed after the first; 3 the same, listed before.
+// wireImp: how wire is imported (plain, alias, dot).
+func bindProgramX(ifk, impl, conc, how, nI, nC int, noBinding bool, depth, order, second, wireImp int) *ir.Program {
 	b := ir.NewBuilder()
 	p := b.Root
 	ip := p
@@ -97,6 +104,20 @@ func bindProgram(ifk, impl, conc, how, nI, nC int, noBinding bool, depth, order 
 	}
 	_ = extra
 	bind := ir.BindItem(iface, concT)
+	var secondBind *ir.Item
+	switch second {
+	case 1:
+		other := b.Iface(p, "Other")
+		if named.Impls != nil && concT != iface && !named.Partial {
+			named.Impls = append(named.Impls, other)
+			secondBind = ir.BindItem(other, concT)
+		}
+	case 2, 3:
+		other := b.Iface(p, "Other")
+		ghost := b.Leaf(p, "Ghost")
+		ghost.Impls = []*ir.Type{other}
+		secondBind = ir.BindItem(other, ghost)
+	}
 	// consumers
 	r := b.Leaf(p, "R")
 	var rdeps []*ir.Type
@@ -142,6 +163,21 @@ func bindProgram(ifk, impl, conc, how, nI, nC int, noBinding bool, depth, order 
 		inj.Items = append([]*ir.Item{ir.SetRef(bs), ir.SetRef(cs)}, consumers...)
 	default:
 		core := append([]*ir.Item{bind}, concItems...)
+		if secondBind != nil {
+			if second == 3 {
+				core = append([]*ir.Item{secondBind}, core...)
+			} else {
+				core = append(core, secondBind)
+			}
+			if second == 1 {
+				// make the second interface needed so that its binding is used
+				o := secondBind.T
+				oc := b.Leaf(p, "OC")
+				consumers = append([]*ir.Item{ir.FuncItem(&ir.Func{Pkg: p, Name: "POC", Params: []*ir.Type{o}, Out: oc})}, consumers...)
+				pr := consumers[len(consumers)-1].Fn
+				pr.Params = append(pr.Params, oc)
+			}
+		}
 		if depth > 0 {
 			// the binding and its concrete type sit depth levels of named sets below wire.Build
 			set := &ir.Set{Pkg: p, Name: "Level0", Items: core}
@@ -152,7 +188,7 @@ func bindProgram(ifk, impl, conc, how, nI, nC int, noBinding bool, depth, order 
 		}
 		inj.Items = append(core, consumers...)
 	}
-	return &ir.Program{Root: p, Injectors: []*ir.Injector{inj}}
+	return &ir.Program{Root: p, Injectors: []*ir.Injector{inj}, WireImport: wireImp}
 }
 
 func checkC11(c *h.Check) {
@@ -168,13 +204,24 @@ func checkC11(c *h.Check) {
 		x.Choose("nobind", 2)
 		x.Choose("depth", 4)
 		x.Choose("order", 3)
+		// deviations on top of the product: a second binding in the same set, and the way wire is imported
+		dev := x.Choose("second", 4)
+		if x.Choose("wireimport", 3) > 0 && dev > 0 {
+			x.Skip()
+		}
 	}, func(x *explore.Ctx) {
 		ch := x.Map()
 		prog := bindProgram(ch["iface"], ch["impl"], ch["conc"], ch["how"], 1+ch["nI"], ch["nC"], ch["nobind"] == 1, ch["depth"], ch["order"])
+		if ch["second"] > 0 || ch["wireimport"] > 0 {
+			if ch["nobind"] == 1 || ch["how"] >= 5 || ch["nI"] > 0 || ch["nC"] > 1 {
+				return // the deviations are explored on the basic placements with one consumer each
+			}
+			prog = bindProgramX(ch["iface"], ch["impl"], ch["conc"], ch["how"], 1+ch["nI"], ch["nC"], false, ch["depth"], ch["order"], ch["second"], ch["wireimport"])
+		}
 		if prog == nil {
 			return
 		}
-		id := fmt.Sprintf("C11/iface=%s/impl=%s/conc=%s/how=%s/nI=%d/nC=%d/nobind=%d", c11Iface[ch["iface"]], c11Impl[ch["impl"]], c11Conc[ch["conc"]], c11Provided[ch["how"]], 1+ch["nI"], ch["nC"], ch["nobind"]) + fmt.Sprintf("/depth=%d/order=%d", ch["depth"], ch["order"])
+		id := fmt.Sprintf("C11/iface=%s/impl=%s/conc=%s/how=%s/nI=%d/nC=%d/nobind=%d", c11Iface[ch["iface"]], c11Impl[ch["impl"]], c11Conc[ch["conc"]], c11Provided[ch["how"]], 1+ch["nI"], ch["nC"], ch["nobind"]) + fmt.Sprintf("/depth=%d/order=%d/second=%d/wire=%d", ch["depth"], ch["order"], ch["second"], ch["wireimport"])
 		cs := &h.Case{ID: id, Files: ir.Render(prog, true), Drive: true,
 			Judge: judgeProgramF(prog, true, map[string]bool{"wiring": true}, map[string]bool{"bad-bind": true, "bind-unprovided": true, "missing": true})}
 		if !c.NoteProgram(cs.Files) {
@@ -189,7 +236,7 @@ func checkC11(c *h.Check) {
 		cases = append(cases, cs)
 	})
 	results := c.JudgeAll(cases)
-	stdCoverage(c, cases, results, "full product: interface {plain, embedding another, from another package} x implementation {value receiver, pointer receiver, none, the interface itself, a wider interface} x bound type {T, *T} x how the concrete type is provided {function, struct provider, value, injector parameter, field, nested set inside the binding's set, enclosing call only, sibling set only} x consumers of I {1,2} x consumers of C {0,1,2} x {binding, no binding} x nesting depth of the binding's set below wire.Build {0..3} x visiting order {interface first, concrete type first, one consumer of both}; implementation kinds include a type that declares the interface's own methods but not those of an embedded interface. Oracle: rejected exactly when the method-set rule fails, C is I, or C is not provided in the binding's own set; accepted programs are compiled and run and every consumer of I and C must receive the same instance (pointer identity unified), C's source running once; without a binding the interface is missing. Distinct = distinct rendered source.")
+	stdCoverage(c, cases, results, "full product: interface {plain, embedding another, from another package} x implementation {value receiver, pointer receiver, none, the interface itself, a wider interface} x bound type {T, *T} x how the concrete type is provided {function, struct provider, value, injector parameter, field, nested set inside the binding's set, enclosing call only, sibling set only} x consumers of I {1,2} x consumers of C {0,1,2} x {binding, no binding} x nesting depth of the binding's set below wire.Build {0..3} x visiting order {interface first, concrete type first, one consumer of both}; a second binding in the same set {none, valid, concrete type unprovided listed after / before the first}; wire imported plainly, under an alias or with a dot import; implementation kinds include a type that declares the interface's own methods but not those of an embedded interface. Oracle: rejected exactly when the method-set rule fails, C is I, or C is not provided in the binding's own set; accepted programs are compiled and run and every consumer of I and C must receive the same instance (pointer identity unified), C's source running once; without a binding the interface is missing. Distinct = distinct rendered source.")
 	c.Coverage["model_verdict_classes"] = kinds.summary()
 	c.Coverage["explorer"] = map[string]interface{}{"executions": st.Executions, "mode": "full product"}
 	sampleCase(c, cases, results)
